@@ -193,7 +193,11 @@ func restC17(o *Opts) {
 		live := map[string]map[uint64]bool{} // the harness's own record of live ids (oracle, independent of the model)
 		var trace []map[string]any
 		diverged := false
+		hung := 0
 		send := func(method, rawPath string, body []byte, why string) {
+			if hung >= 2 {
+				return
+			}
 			u, err := url.Parse("http://x" + rawPath)
 			if err != nil {
 				return
@@ -204,6 +208,22 @@ func restC17(o *Opts) {
 				model = drv.Send(fmt.Sprintf("rest %s %s %s", method, hexW([]byte(u.Path)), desc))
 			}
 			r := srv.do(method, rawPath, body)
+			if r.Status == 0 && (strings.Contains(r.Dropped, "Timeout") || strings.Contains(r.Dropped, "deadline exceeded")) {
+				// no answer at all within the client's 20 s: the server is stuck (a lock that is never released, say).
+				// Report it, start the server again on its data folder and go on; a history that hangs twice is given up.
+				hung++
+				t := trace
+				if len(t) > 25 {
+					t = t[len(t)-25:]
+				}
+				res.Violate("impl-failure", "C17/no-answer", fmt.Sprintf("%s %s got no answer within 20 s (the requests before it are in the replay)", method, rawPath), map[string]any{"history": h, "request": map[string]any{"method": method, "path": rawPath, "body": abbreviate(string(body), 200)}, "last_requests": t})
+				srv.kill()
+				if srv.start() {
+					drv.Send("restrestart")
+				} else {
+					hung = 2
+				}
+			}
 			res.Evaluations++
 			res.DistinctCase(fmt.Sprintf("%d/%d", h, len(trace)))
 			res.Hit(fmt.Sprintf("%s:%d", why, r.Status))
@@ -282,7 +302,7 @@ func restC17(o *Opts) {
 		coll := func() string { return names[rng.Intn(len(names))] }
 		esc := func(n string) string { return url.PathEscape(n) }
 		stop := false
-		for i := 0; i < nreq && !stop; i++ {
+		for i := 0; i < nreq && !stop && hung < 2; i++ {
 			n := coll()
 			base := "/api/v1/collections/" + esc(n)
 			_, exists := dims[n]
